@@ -263,5 +263,42 @@ func properties() map[string]Property {
 		Assumes: []string{floatAssume, heapAssume, solverAssume, "offset entry points are exercised under C05/C10, the floating-point API's precision panic under C07"},
 		Jobs:    c03}
 
+	// ---- C04 ------------------------------------------------------------
+	var c04 []Job
+	c04b := func(fam int64) string {
+		switch fam {
+		case 6:
+			return "three strictly nested rectangles (boundary / hole / island), all sides and orientations symbolic in [-2^29, 2^29]"
+		case 7:
+			return "a rectangle containing a wide and a tall bar that cross (plus-shaped hole touching its central island at corners), all sides and orientations symbolic"
+		}
+		return rb(fam)
+	}
+	for _, a := range [][]int64{{1, 2, 0}, {6, 2, 0}, {6, 2, 1}, {6, 4, 2}, {6, 2, 3}, {7, 2, 0}, {0, 3, 1}} {
+		c04 = append(c04, Job{Harness: "H_C04_R", Args: a, Tier: "quick", Covers: []string{"C04.done", "C04.node"},
+			Bounds: c04b(a[0]) + "; args (family, clip type, fill rule); tree polygons matched against the flat result, nesting and orientation decided per grid cell"})
+	}
+	for _, a := range [][]int64{{1, 2, 1}, {1, 2, 2}, {1, 4, 0}, {0, 4, 0}, {0, 2, 1}, {0, 1, 0}, {7, 2, 1}, {7, 4, 0}, {6, 4, 0}, {6, 2, 2}} {
+		c04 = append(c04, Job{Harness: "H_C04_R", Args: a, Tier: "thorough", Covers: []string{"C04.done"}, Bounds: c04b(a[0])})
+	}
+	ps["C04"] = Property{ID: "C04", Level: "model_checking",
+		Explain: "BooleanOpPolyTree64 and the flat result computed in one symbolic run on every feasible path: same polygons (bijection), children inside parents and inside no sibling (per grid cell), IsHole iff negatively oriented, levels alternate, a hole's parent is the innermost containing boundary",
+		Assumes: []string{floatAssume, heapAssume, solverAssume, "the floating-point tree variant is C07's plumbing subject"},
+		Jobs:    c04}
+
+	// ---- C09 ------------------------------------------------------------
+	var c09 []Job
+	c09b := "open axis-parallel subject polyline (shape 0 horizontal segment, 1 vertical segment, 2/3 L shapes, 4 collinear triple) with symbolic coordinates x symbolic clip rectangle (either orientation); last arg 1 adds a symbolic closed subject rectangle overlapping the clip in staggered position; ExecuteOC; a symbolic point on each subject segment decides coverage"
+	for _, a := range [][]int64{{0, 1, 1, 0}, {1, 3, 0, 0}, {2, 1, 1, 0}, {3, 3, 2, 0}, {4, 1, 3, 0}, {0, 2, 1, 1}, {1, 2, 0, 0}} {
+		c09 = append(c09, Job{Harness: "H_C09_open", Args: a, Tier: "quick", Covers: []string{"C09.done"}, TimeoutMs: 60000, Bounds: c09b})
+	}
+	for _, a := range [][]int64{{2, 3, 0, 1}, {3, 2, 1, 1}, {2, 1, 1, 1}, {4, 3, 1, 0}, {0, 4, 1, 0}, {1, 1, 2, 1}} {
+		c09 = append(c09, Job{Harness: "H_C09_open", Args: a, Tier: "thorough", Covers: []string{"C09.done"}, TimeoutMs: 60000, Bounds: c09b})
+	}
+	ps["C09"] = Property{ID: "C09", Level: "model_checking",
+		Explain: "the open-path branches of the sweep executed on every feasible path: the closed solution is identical to the run without open paths, every open output vertex lies on the subject line, and a symbolic point of the subject line more than 2 units from every closed edge is covered iff the clip type's inside/outside condition holds under the exact winding number",
+		Assumes: []string{floatAssume, heapAssume, solverAssume, "sloped open paths and clip polygons other than one rectangle are outside these jobs"},
+		Jobs:    c09}
+
 	return ps
 }
